@@ -117,7 +117,7 @@ def r_empty_decimal(ctx, rid='R11.7'):
         conv = fx.F[path]
         rows = guards.decision_table(ctx, conv, plain=True)
         arg = conv.names.get(1, 's')
-        test_t, test_f = 'is_empty(%s)=T' % arg, 'is_empty(%s)=F' % arg
+        test_t, test_f = 'Eq(0_usize, len(%s))=T' % arg, 'Eq(0_usize, len(%s))=F' % arg
         err = [r for r in rows if r['out'].startswith('err') and test_t in r['conds']]
         leaky = [r for r in rows if (r['out'].startswith('ok') or r['out'] in ('val', 'loop')) and test_f not in r['conds']]
         ctx.ob(rid, 'conv:' + ty, bool(err) and not leaky, '%s rejects the empty string before anything else (row %s → Err; every other row under %s)' % (path, test_t, test_f), conv.where(),
